@@ -1,7 +1,7 @@
 #!/bin/bash
 # usage: tools/try_mutant.sh <patch.diff> <Cxx> [more check args]   -- apply to /repo, run the check (no evidence), revert
 set -u
-PATCH="$1"; shift
+PATCH="$(readlink -f "$1")"; shift
 CID="$1"; shift
 cd /repo || exit 2
 if ! git diff --quiet; then echo "/repo has uncommitted changes"; exit 2; fi
